@@ -1,7 +1,11 @@
 (* CBC mode (NIST SP 800-38A section 6.2) over an abstract 16-byte block cipher, the
-   round-trip theorem, and the AES instances.  No padding here: the plaintext must be a
+   round-trip theorems, and the AES instances.  No padding here: the plaintext must be a
    multiple of 16 bytes (a trailing partial block is processed as it stands, which is only
-   meaningful to callers that pad first). *)
+   meaningful to callers that pad first).
+
+   Two forms of the theorem: [cbc_roundtrip] assumes [D (E b) = b] for every 16-element
+   block; [cbc_roundtrip_bytes] assumes it only for blocks of bytes (< 256), which is all a
+   real cipher such as AES can satisfy on [list N], and asks for byte inputs in return. *)
 From Kit Require Import Lib.Base.
 From Kit Require Import Crypto.Words Crypto.AES.
 
@@ -27,42 +31,73 @@ Section CBC.
   Definition cbc_decrypt_with (iv ct : list N) : list N :=
     concat (cbc_dec_blocks iv (chunks 16 ct)).
 
-  Hypothesis DE : forall b, length b = 16 -> D (E b) = b.
-  Hypothesis E_length : forall b, length (E b) = 16.
+  (* One proof for both forms: [okb] says which list elements are valid ([byte_ok], or
+     everything). *)
+  Section Generic.
+    Variable okb : N -> bool.
+    Let ok (l : list N) : Prop := forallb okb l = true.
 
-  Lemma cbc_enc_blocks_Forall prev blocks :
-    Forall (fun c => length c = 16) (cbc_enc_blocks prev blocks).
-  Proof.
-    revert prev; induction blocks as [|b rest IH]; intro prev; cbn [cbc_enc_blocks];
-      constructor; [apply E_length | apply IH].
-  Qed.
+    Hypothesis okb_xor : forall x y, okb x = true -> okb y = true -> okb (N.lxor x y) = true.
+    Hypothesis DE : forall b, length b = 16 -> ok b -> D (E b) = b.
+    Hypothesis E_length : forall b, length (E b) = 16.
+    Hypothesis E_ok : forall b, ok (E b).
 
-  Lemma cbc_blocks_roundtrip prev blocks :
-    length prev = 16 -> Forall (fun b => length b = 16) blocks ->
-    cbc_dec_blocks prev (cbc_enc_blocks prev blocks) = blocks.
-  Proof.
-    intros Hprev Hall; revert prev Hprev.
-    induction Hall as [|b rest Hb Hall IH]; intros prev Hprev;
-      cbn [cbc_enc_blocks cbc_dec_blocks]; [reflexivity|].
-    rewrite DE by (rewrite xor_bytes_length; lia).
-    rewrite xor_bytes_involutive by lia.
-    rewrite IH by apply E_length. reflexivity.
-  Qed.
+    Lemma cbc_enc_blocks_Forall prev blocks :
+      Forall (fun c => length c = 16) (cbc_enc_blocks prev blocks).
+    Proof.
+      revert prev; induction blocks as [|b rest IH]; intro prev; cbn [cbc_enc_blocks];
+        constructor; [apply E_length | apply IH].
+    Qed.
+
+    Lemma cbc_blocks_roundtrip prev blocks :
+      length prev = 16 -> ok prev -> Forall (fun b => length b = 16 /\ ok b) blocks ->
+      cbc_dec_blocks prev (cbc_enc_blocks prev blocks) = blocks.
+    Proof.
+      intros Hprev Hokp Hall; revert prev Hprev Hokp.
+      induction Hall as [|b rest [Hb Hokb] Hall IH]; intros prev Hprev Hokp;
+        cbn [cbc_enc_blocks cbc_dec_blocks]; [reflexivity|].
+      rewrite DE.
+      - rewrite xor_bytes_involutive by lia.
+        rewrite IH; [reflexivity | apply E_length | apply E_ok].
+      - rewrite xor_bytes_length; lia.
+      - now apply forallb_xor_bytes.
+    Qed.
+
+    Theorem cbc_roundtrip_gen iv pt :
+      length iv = 16 -> ok iv -> length pt mod 16 = 0 -> ok pt ->
+      cbc_decrypt_with iv (cbc_encrypt_with iv pt) = pt.
+    Proof.
+      intros Hiv Hokiv Hpt Hokpt. unfold cbc_decrypt_with, cbc_encrypt_with.
+      rewrite chunks_of_concat; [| lia | apply cbc_enc_blocks_Forall].
+      rewrite cbc_blocks_roundtrip; [apply chunks_concat; lia | assumption | assumption |].
+      apply Forall_and; [apply chunks_Forall; [lia | assumption] | now apply forallb_chunks].
+    Qed.
+  End Generic.
 
   Theorem cbc_roundtrip iv pt :
+    (forall b, length b = 16 -> D (E b) = b) -> (forall b, length (E b) = 16) ->
     length iv = 16 -> length pt mod 16 = 0 ->
     cbc_decrypt_with iv (cbc_encrypt_with iv pt) = pt.
   Proof.
-    intros Hiv Hpt. unfold cbc_decrypt_with, cbc_encrypt_with.
-    rewrite chunks_of_concat; [| lia | apply cbc_enc_blocks_Forall].
-    rewrite cbc_blocks_roundtrip; [| assumption | apply chunks_Forall; [lia | assumption]].
-    apply chunks_concat. lia.
+    intros DE E_length Hiv Hpt.
+    apply (cbc_roundtrip_gen (fun _ => true)); auto using forallb_true.
+  Qed.
+
+  Theorem cbc_roundtrip_bytes iv pt :
+    (forall b, length b = 16 -> bytes_ok b = true -> D (E b) = b) ->
+    (forall b, length (E b) = 16) -> (forall b, bytes_ok (E b) = true) ->
+    length iv = 16 -> bytes_ok iv = true -> length pt mod 16 = 0 -> bytes_ok pt = true ->
+    cbc_decrypt_with iv (cbc_encrypt_with iv pt) = pt.
+  Proof.
+    intros DE E_length E_ok Hiv Hokiv Hpt Hokpt.
+    apply (cbc_roundtrip_gen byte_ok); auto using byte_ok_lxor.
   Qed.
 
   Lemma cbc_encrypt_with_length iv pt :
+    (forall b, length (E b) = 16) ->
     length pt mod 16 = 0 -> length (cbc_encrypt_with iv pt) = length pt.
   Proof.
-    intro Hpt. unfold cbc_encrypt_with.
+    intros E_length Hpt. unfold cbc_encrypt_with.
     rewrite <- (chunks_concat 16 pt) at 2 by lia.
     pose proof (chunks_Forall 16 pt ltac:(lia) Hpt) as Hall.
     revert iv; induction Hall as [|b rest Hb Hall IH]; intro iv;
@@ -76,20 +111,22 @@ Definition aes_cbc_encrypt (key iv pt : list N) : list N :=
 Definition aes_cbc_decrypt (key iv ct : list N) : list N :=
   let ks := aes_expand key in cbc_decrypt_with (aes_decrypt_block_ks ks) iv ct.
 
-(* The AES instance of [cbc_roundtrip], conditional on AES decryption inverting AES
-   encryption under this key (not proved here; the length hypothesis is discharged). *)
+(* The AES instance of [cbc_roundtrip_bytes], conditional on AES decryption inverting AES
+   encryption on byte blocks under this key.  That premise is not proved in this
+   development (the KATs and the differential runs against Go test it); the length and
+   byte-range premises about AES are discharged. *)
 Corollary aes_cbc_roundtrip key iv pt :
-  (forall b, length b = 16 ->
+  (forall b, length b = 16 -> bytes_ok b = true ->
              aes_decrypt_block_ks (aes_expand key) (aes_encrypt_block_ks (aes_expand key) b) = b) ->
-  length iv = 16 -> length pt mod 16 = 0 ->
+  length iv = 16 -> bytes_ok iv = true -> length pt mod 16 = 0 -> bytes_ok pt = true ->
   aes_cbc_decrypt key iv (aes_cbc_encrypt key iv pt) = pt.
 Proof.
-  intros HDE Hiv Hpt. unfold aes_cbc_decrypt, aes_cbc_encrypt.
-  apply cbc_roundtrip; auto using aes_encrypt_block_ks_length.
+  intros HDE Hiv Hokiv Hpt Hokpt. unfold aes_cbc_decrypt, aes_cbc_encrypt.
+  apply cbc_roundtrip_bytes; auto using aes_encrypt_block_ks_length, aes_encrypt_block_ks_ok.
 Qed.
 
-(* non-vacuity of [cbc_roundtrip]: the hypotheses hold for E = D = identity on 16-byte
-   blocks padded/truncated to 16 *)
+(* non-vacuity: the hypotheses of [cbc_roundtrip] hold for E = D = "pad/cut to 16", those
+   of [cbc_roundtrip_bytes] for E = D = [toy_block]; neither makes CBC the identity *)
 Example cbc_roundtrip_nonvacuous :
   let E := take_pad 16 in
   (forall b, length b = 16 -> E (E b) = b) /\ (forall b, length (E b) = 16) /\
@@ -101,4 +138,18 @@ Proof.
   - vm_compute. discriminate.
 Qed.
 
+Example cbc_roundtrip_bytes_nonvacuous :
+  let E := toy_block in
+  (forall b, length b = 16 -> bytes_ok b = true -> E (E b) = b) /\
+  (forall b, length (E b) = 16) /\ (forall b, bytes_ok (E b) = true) /\
+  cbc_encrypt_with E (zeros 16) (ramp 32) <> ramp 32.
+Proof.
+  repeat split.
+  - apply toy_block_involutive.
+  - apply toy_block_length.
+  - apply toy_block_ok.
+  - vm_compute. discriminate.
+Qed.
+
 Print Assumptions cbc_roundtrip.
+Print Assumptions cbc_roundtrip_bytes.
